@@ -76,6 +76,14 @@ def corpus():
             dict(cfg=dict(shape='blog', strategy='validity'),
                  prog=base + [['link', 1, 1], ['commit'], ['unlink', 1, 1], ['flush'], ['link', 1, 1], ['flush'], ['unlink', 1, 1],
                               ['commit'], ['set', 0, 1, {'a': 2}], ['commit']]),
+            # a linked article replaced by a new object with the same key, linked again, in ONE flush (row switch): the
+            # flush deletes and inserts the same association row
+            dict(cfg=dict(shape='blog', strategy='validity'),
+                 prog=base + [['link', 1, 1], ['commit'], ['del', 0, 1], ['add', 0, 1, {'a': 5}], ['link', 1, 1], ['commit'],
+                              ['set', 0, 1, {'a': 2}], ['commit']]),
+            dict(cfg=dict(shape='blog', strategy='subquery'),
+                 prog=base + [['add', 2, 2, {'a': 1}], ['link', 1, 1], ['link', 1, 2], ['commit'], ['del', 0, 1],
+                              ['add', 0, 1, {'a': 5}], ['link', 1, 1], ['commit'], ['unlink', 1, 1], ['commit']]),
             # association statements while the unit of work exists but has no transaction record yet (a flush of
             # nothing but a non-versioned object came first); the record is created by a later flush
             dict(cfg=dict(shape='blog', strategy='validity'),
